@@ -123,6 +123,38 @@ func addJSONIntrinsics() {
 			in.call(nil, 0, m, []value{e.w.v, newCopier().copy(args[1])})
 			return iface{}
 		}
+		// ---- sync.Pool: a LIFO free list per pool and path; Get calls New when the list is empty ----
+		t["(*sync.Pool).Get"] = func(in *Interp, fr *frame, args []value) value {
+			cell := args[0].(*value)
+			if in.run.pools == nil {
+				in.run.pools = map[*value][]value{}
+			}
+			if l := in.run.pools[cell]; len(l) > 0 {
+				v := l[len(l)-1]
+				in.run.pools[cell] = l[:len(l)-1]
+				return v
+			}
+			s := (*cell).(structure)
+			newFn := s[len(s)-1] // the exported field New is the last one
+			if newFn == nil {
+				return iface{}
+			}
+			if c, ok := newFn.(*closure); ok && c == nil {
+				return iface{}
+			}
+			return in.call(fr, fr.callPos, newFn, nil)
+		}
+		t["(*sync.Pool).Put"] = func(in *Interp, fr *frame, args []value) value {
+			cell := args[0].(*value)
+			if in.run.pools == nil {
+				in.run.pools = map[*value][]value{}
+			}
+			if x, ok := args[1].(iface); ok && x.t == nil {
+				return nil
+			}
+			in.run.pools[cell] = append(in.run.pools[cell], args[1])
+			return nil
+		}
 		noop := func(in *Interp, fr *frame, args []value) value { return nil }
 		t["(net/http.Header).Set"] = noop
 		t["(net/http.Header).Add"] = noop
